@@ -195,21 +195,33 @@ def race_check(res):
 
 def run(res):
     theorems = ["Props.c10_structure", "Props.c10_core", "Props.c10_reported_iff", "Props.c10_total",
-                "Props.c10_grouping_witness", "Props.c10_grouping_witness_value", "Props.c10_unknown_function_refused", "Props.c10_unknown_method_refused"]
+                "Props.c10_grouping_witness", "Props.c10_grouping_witness_value", "Props.c10_unknown_function_refused", "Props.c10_unknown_method_refused", "Props.c10_fragment_accepted", "Props.c10_index_refused"]
     broken, model_ok = gen.prepare(res, "Gvlean.Props.C10", theorems)
     if broken is None:
         return
     res.cov["trusted_base"] = TRUSTED
     rows = [r for r in harness_rows(res.tier, res.seed) if "id" in r]
     # ---- text tie
-    tie_rows = [r for r in rows if r.get("ast") and r.get("file") and r.get("cond")]
+    tie_rows = [r for r in rows if r.get("ast")]
     ans = C.drive("modeldrv", ["cel\tF\t" + r["ast"] for r in tie_rows]) if model_ok and tie_rows else []
-    ties, modelled = [], 0
+    ties, modelled, refused = [], 0, 0
     for r, a in zip(tie_rows, ans):
         if a in ("unmodelled", "bad-op"):
             continue
-        modelled += 1
+        impl_unsupported = r["gen_exit"] != 0 and "unsupported CEL construct" in (r.get("gen_err") or "")
+        if a == "refused":
+            # the model covers the expression and has no rendering for one of its calls: the generator must stop with that error
+            refused += 1
+            if r["gen_exit"] == 0:
+                ties.append((r, "<refused: a function or method of the expression has no Go rendering — generation must stop>"))
+            continue
         m = bytes.fromhex(a).decode("utf-8", "replace")
+        if impl_unsupported:
+            ties.append((dict(r, cond="<generation stopped: %s>" % (r.get("gen_err") or "")[-200:]), m))
+            continue
+        if not (r.get("file") and r.get("cond")):
+            continue
+        modelled += 1
         if norm(m) != norm(r["cond"]):
             ties.append((r, m))
     # ---- behaviour against the reference
@@ -270,6 +282,7 @@ def run(res):
     res.cov["programs"] = len(rows)
     res.cov["distribution"] = dist
     res.cov["text_tie_expressions"] = modelled
+    res.cov["refusal_tie_expressions"] = refused
     res.cov["model_vs_impl_text_disagreements"] = len(ties)
     res.cov["impl_vs_reference_disagreements"] = len(concrete)
     res.cov["rule"] = ("corr-cel: the repository's golden fixture and one representative per construct first, then random expressions from a typed grammar (comparison, &&, ||, !, unary minus, "
@@ -297,7 +310,7 @@ def run(res):
     if ties:
         r, m = ties[0]
         allb.append(("corr-cel-text", "translator model and real generator print different conditions for %d expression(s); first: %s on %s\n impl : %s\n model: %s" % (
-            len(ties), r["expr"], r["ftype"], r["cond"][:800], m[:800])))
+            len(ties), r["expr"], r["ftype"], (r.get("cond") or "")[:800], m[:800])))
     if allb:
         res.violation("unproved", {"kind": "unproved", "broken": [{"what": b[0], "detail": b[1][-4000:]} for b in allb],
                                    "note": "theorem / correspondence no longer checks; the comparison with reference CEL over every expression and binding of this run found no failing input"}, False)
